@@ -335,7 +335,8 @@ func hostileOutput(kind string, id uint16, stream []byte, st *sim.Stream) ([][]b
 	case "status-negative":
 		return [][]byte{fcgiRecord(fcgiStdout, id, []byte("Status: -200 Neg\r\n\r\nx"), 0), eos, end}, true
 	case "status-not-a-number":
-		return [][]byte{fcgiRecord(fcgiStdout, id, []byte("Status: abc\r\n\r\nx"), 0), eos, end}, true
+		v := []string{" abc", "", " ", " \t \t", " \u00a0", " \u0085", " 200  Two  Blanks", "  200", " 2 0 0", " 0x1F4", " +200", " 200OK", " \uff12\uff10\uff10", " 200\x00", " 1e2", " 200 " + strings.Repeat("r", 9000)}[st.Draw(16)]
+		return [][]byte{fcgiRecord(fcgiStdout, id, []byte("Status:"+v+"\r\n\r\nx"), 0), eos, end}, true
 	case "no-header-terminator":
 		return [][]byte{fcgiRecord(fcgiStdout, id, []byte("Content-Type: text/plain\r\nX-A: b"), 0), eos, end}, true
 	case "huge-header-line":
